@@ -1697,10 +1697,14 @@ def gen_cases(tier, rng):
         def some(k, pairs):
             out = []
             for _ in range(k):
-                kind = rng.choice(["iso", "iso", "maps", "pre", "sub"])
+                kind = rng.choice(["iso", "iso", "maps", "pre", "sub", "giso", "fgi"])
                 i, j = rng.choice(pairs)
                 if kind == "sub":
                     out.append(["sub", rng.choice(["sm", "gm", "is"]), i, j, rng.random() < 0.5, rng.choice(["induced", "mono"]), NAMES_DEF, "order"])
+                elif kind == "giso":
+                    out.append(["giso", i, j])
+                elif kind == "fgi":
+                    out.append(["fgi", i, j, True, rng.random() < 0.5])
                 else:
                     out.append([kind, rng.randrange(len(es)), i, j])
             return out
